@@ -6,7 +6,7 @@ TECH = "contract-based deductive verification: Verus (Z3) on functions sliced me
 PROPERTIES = {
     'C01': dict(
         units=['u_map', 'u_index', 'u_cascade', 'u_dataset', 'u_sub', 'u_posidx'],
-        finders=['find_store_consistency'],
+        finders=['find_store_consistency', 'find_subselectors'],
         level_text="Deductive proof (Verus/Z3), for all inputs and without bound, that (1) every reverse-index primitive (RelationMap, RelationBTreeMap, TripleRelationMap, ExclusiveRelationMap: insert/extend/remove/remove_all/remove_second/get) changes exactly the addressed row and nothing else; (2) StoreCallbacks<Annotation>::inserted, verified whole, enters a new annotation into each of the seven indices exactly once per matching leaf of its target, in order, under the right keys, for every target selector and every index configuration, and changes nothing else; (3) the un-indexing part of StoreCallbacks<Annotation>::preremove removes exactly the pairs (target, annotation) from exactly the right index; (4) the dataset callbacks keep key_data_map equal to the keys of the live data; (5) the range compression of subselectors loses no target; (6) position-index insertion enters a text selection under its begin and its end. The claim is partial and says so.",
         level_note="Trusted: Vec::resize_with / Option::copied std specs, vx_position (Iterator::position semantics, structural == on handles), lawful Ord on handle types (obeys_cmp precondition), 64-bit usize, BTreeMap entry API model, SelectorIter (the sequence of leafs of a complex target is the uninterpreted walk(target); a non-complex selector yields itself). Not decided: the target collection at the head of preremove (high-level API iterators), protect_text, map reindex, totalcount.",
         design_ref='DESIGN.md §7.1',
@@ -24,7 +24,7 @@ PROPERTIES = {
     ),
     'C04': dict(
         units=['u_off'],
-        finders=['find_offset_accept'],
+        finders=['find_offset_accept', 'find_relative_offsets'],
         level_text="Deductive proof (Verus/Z3), for every cursor pair and every text length, that TextResource::textselection_by_offset(_unchecked) and TextSelection::textselection_by_offset accept an offset exactly when it denotes 0 <= begin <= end <= length and then return exactly that range; that beginaligned_cursor rejects positive end-aligned cursors; that relative_offset reports, in all four alignment modes, a well-formed offset (end-aligned cursors <= 0) that re-resolves to the same absolute range; no arithmetic overflow or panic in any of these.",
         level_note="Trusted: isize::abs/unsigned_abs specs, 64-bit usize, error-message text (vx_msg). Preconditions: ranges are well formed and text positions fit isize (Rust allocation limit). Not decided: that the annotation's text is precisely those codepoints (needs utf8byte, see C12) and Selector::offset_with_mode's store lookups.",
         design_ref='DESIGN.md §7.4',
@@ -97,6 +97,7 @@ PROPERTIES = {
     ),
     'C14': dict(
         units=['u_annotate', 'u_store', 'u_off'],
+        finders=['find_offset_accept', 'find_subselectors'],
         level_text="Deductive proof (Verus/Z3) of what a failing mutation may leave behind: the generic StoreFor::insert (every store type) either succeeds or - unless a callback fails after the push, which the callback contracts rule out for in-range items - leaves store and id map unchanged, and rejects a duplicate id without changing anything; TextResource::textselection_by_offset rejects exactly the offsets that do not denote a range inside the text, before anything is inserted; AnnotationStore::annotate resolves the target before it touches any data, so an unresolvable or missing target leaves the store unchanged, and never adds an annotation when it returns an error. Full atomicity of annotate (valid new target + invalid data) does NOT hold on this code and is a recorded known finding.",
         level_note="Trusted: contracts of AnnotationStore::selector / insert_data (selector touches only text selections and nothing on failure; insert_data touches only the data side) over an opaque store with three ghost versions; callback contracts; batches (annotate_from_iter, annotate_from_file, query_mut ADD) are loops over annotate and are not separately covered.",
         design_ref='DESIGN.md §7.12',
@@ -105,6 +106,7 @@ PROPERTIES = {
     ),
     'C19': dict(
         units=['u_off', 'u_store', 'u_sub'],
+        finders=['find_offset_accept', 'find_relative_offsets', 'find_subselectors'],
         kani=[dict(harness='k_temp_id', function='resolve_temp_id (src/store.rs)', file='src/store.rs', bound='every valid UTF-8 string of at most 4 bytes'),
               dict(harness='k_cursor_str', function='impl TryFrom<&str> for Cursor (src/types.rs)', file='src/types.rs', bound='every valid UTF-8 string of at most 3 bytes')],
         level_text="Narrow claim: deductive proof (Verus/Z3) of panic freedom WITHOUT any precondition on the value for the functions that a deserialised cursor, offset, temporary id or handle reaches: Text::beginaligned_cursor and TextResource::textselection_by_offset for every Cursor value (including EndAligned(isize::MIN) and positive end-aligned cursors), Cursor::try_from(isize), StoreFor::resolve_id / get / has for every string and every handle (Handle::new truncation is covered by a round-trip check), and the range-compression loop of subselectors for every order of handles. The loaders themselves (serde_json / csv / minicbor visitors), allocation driven by numbers in the input, and termination are NOT decided. Two string leaves have bounded Kani stand-ins in the thorough tier only (labelled bounded, not counted as proved).",
